@@ -194,6 +194,8 @@ func c03Facts(fs *Facts, s *c02Src) {
 	fs.Tri("truncatesTornTail", tr, w)
 	t, w = c25FlushesAtCountBound(s)
 	fs.Tri("flushesAtCountBound", t, w)
+	t, w = c02ZeroTailIsEOF(s)
+	fs.Tri("zeroTailIsEOF", t, w)
 	c25ReaderAssumptions(fs, s)
 }
 
